@@ -70,10 +70,33 @@ func sliceHyps(hyps []*Term, goal *Term) []*Term {
 	return out
 }
 
-func smtFile(o *Obligation, slice bool) string {
+func hasQuant(t *Term) bool {
+	if t.Op == "forall" || t.Op == "exists" {
+		return true
+	}
+	for _, a := range t.Args {
+		if hasQuant(a) {
+			return true
+		}
+	}
+	return false
+}
+
+func smtFile(o *Obligation, slice bool) string { return smtFileQ(o, slice, false) }
+
+func smtFileQ(o *Obligation, slice bool, dropQuant bool) string {
 	hyps := o.Hyps
 	if slice {
 		hyps = sliceHyps(hyps, o.Goal)
+	}
+	if dropQuant {
+		var h2 []*Term
+		for _, h := range hyps {
+			if !hasQuant(h) {
+				h2 = append(h2, h)
+			}
+		}
+		hyps = h2
 	}
 	st := newSymtab()
 	for _, h := range hyps {
@@ -230,6 +253,22 @@ func discharge(o *Obligation, dir string, timeout time.Duration, idx int) {
 	}
 	os.WriteFile(fname, []byte(txt), 0o644)
 	t0 := time.Now()
+	// quantifier-free relaxation first: fewer hypotheses, so unsat is sound; sat gives a candidate model for replay
+	if o.Kind != "cover" && !hasQuant(o.Goal) {
+		qf := smtFileQ(o, true, true)
+		if qf != txt && !usesPreludeRec(qf) {
+			fq := fname + ".qf.smt2"
+			os.WriteFile(fq, []byte(qf), 0o644)
+			r := runSolver(context.Background(), "z3-new", fq, 2*time.Second)
+			if r.result == "unsat" {
+				o.Result, o.Solver, o.Time = "unsat", "z3-new(qf)", r.secs
+				return
+			}
+			if r.result == "sat" {
+				o.CandModel = modelOf(r.out)
+			}
+		}
+	}
 	quick := runSolver(context.Background(), "z3-new", fname, 3*time.Second)
 	if quick.result == "unsat" || quick.result == "sat" {
 		o.Result, o.Solver, o.Time = quick.result, quick.solver, quick.secs
@@ -289,6 +328,11 @@ func discharge(o *Obligation, dir string, timeout time.Duration, idx int) {
 	if best.result == "sat" {
 		o.Model = modelOf(best.out)
 	}
+}
+
+// the relaxation is only used when no recursive spec function is involved (their axioms are quantified)
+func usesPreludeRec(txt string) bool {
+	return strings.Contains(txt, "(declare-fun psum") || strings.Contains(txt, "(declare-fun emaS") || strings.Contains(txt, "(declare-fun rmaS") || strings.Contains(txt, "(declare-fun since_") || strings.Contains(txt, "(declare-fun fcount")
 }
 
 func firstLines(s string, n int) string {
